@@ -54,6 +54,14 @@ func c18worker(arg string) {
 				c18before(c, n, calls)
 			}
 		}
+		// a callback that calls the wrapper itself, once, from its k-th run (round 7: C18-14)
+		for n := -1; n <= 6; n++ {
+			for k := 1; k <= n+1; k++ {
+				for calls := 1; calls <= n+3; calls++ {
+					c18beforeReentrant(c, n, k, calls)
+				}
+			}
+		}
 		for n1 := 1; n1 <= 3; n1++ {
 			for n2 := -1; n2 <= 4; n2++ {
 				for calls := 0; calls <= 6; calls++ {
@@ -191,6 +199,52 @@ func c18before(c *c20ctx, n, calls int) {
 		}
 		return "", ""
 	}, func() any { return fmt.Sprint(runOn, got) })
+}
+
+// c18beforeReentrant: the callback's k-th run makes one nested call of Before on the same counter and cache.
+// The nested call is a call like any other: numbered in the order the calls BEGIN, call j runs the callback
+// iff j <= n (only the run count is judged: which result "the last run" is, is ambiguous for nested runs).
+func c18beforeReentrant(c *c20ctx, n, k, calls int) {
+	var ranOn []bool
+	started := 0
+	name := fmt.Sprintf("Before(n=%d, %d calls, run %d of the callback calls the wrapper itself)", n, calls, k)
+	c.explore(name, 0, func() {
+		ranOn = make([]bool, calls+2)
+		started = 0
+		ca := cache.New[string, int](cache.DefaultExpiration, cache.NoExpiration)
+		nn := n
+		inv := 0
+		nested := false
+		var call func() int
+		call = func() int {
+			started++
+			my := started
+			return gogu.Before(&nn, ca, func() int {
+				inv++
+				me := inv
+				ranOn[my] = true
+				if me == k && !nested {
+					nested = true
+					call()
+				}
+				return 100 + me
+			})
+		}
+		for i := 0; i < calls; i++ {
+			call()
+		}
+	}, func(x *vrt.Exec) (string, string) {
+		for j := 1; j <= started; j++ {
+			if wantRun := j <= n; ranOn[j] != wantRun {
+				cls := "runs-after-n-calls"
+				if wantRun {
+					cls = "does-not-run-within-first-n-calls"
+				}
+				return "Before/reentrant-callback/" + cls, fmt.Sprintf("n=%d, run %d of the callback makes a nested call: call %d (in the order the calls begin, %d in all) ran the callback=%t, want %t", n, k, j, started, ranOn[j], wantRun)
+			}
+		}
+		return "", ""
+	}, func() any { return fmt.Sprint(ranOn[:started+1]) })
 }
 
 // zeroFirst: the callback's first result is the zero value of its type (a legitimate result: 0, false,
